@@ -11,7 +11,7 @@ from props import common
 
 ID = "C05"
 LEVEL = "proof"
-LEVEL_TEXT = "Lean 4 theorems: the bookkeeping invariant inv (entries >= 0, bins+flows sum to entries, collection members and Fraction denominator carry the parent's entries, Stack levels antitone with level0+nanflow = entries, Bag weights sum to entries) holds for zero(), is preserved by fill, +, * and hence by every run of fills from an empty tree; the regular bin index is always < num. Tied to /repo by long operation histories over a pool (row and vectorised fills, +, +=, *, copy, zero, JSON round trips) with the invariants evaluated on every live aggregator of the real library after every operation."
+LEVEL_TEXT = "Lean 4 theorems: the bookkeeping invariant inv (entries >= 0, bins+flows sum to entries, collection members and Fraction denominator carry the parent's entries, Stack levels antitone with level0+nanflow = entries, Bag weights sum to entries) holds for zero(), is preserved by fill, +, * and hence by every run of fills from an empty tree and (inv_history) by every history of fill / + / += / * / zero() / copy() over a pool of aggregators derived from one empty tree; the regular bin index is always < num. Tied to /repo by long operation histories over a pool (row and vectorised fills, +, +=, *, copy, zero, JSON round trips) with the invariants evaluated on every live aggregator of the real library after every operation."
 LEVEL_NOTE = "Exact arithmetic in the theorems; the property's floating-point clause (values within a few ulps of any edge are accepted and land in exactly one bin) is decided by the harness's edge probes on the real code (row-wise and vectorised, non-dyadic widths, large offsets), not by a theorem."
 TECHNIQUE = 'Lean 4 proof (invariant by induction over operations) + history correspondence + floating-point edge probes on the implementation'
 LEAN_MODULE = "Hg.Props.C05"
@@ -27,7 +27,14 @@ SHRINK_SPECS = []
 
 
 def gen_params(rng, tier):
-    spec = gen.gen_count_sibling_spec(rng) if rng.random() < 0.15 else gen.gen_spec(rng, rng.randint(0, 3))
+    r0 = rng.random()
+    if r0 < 0.15:
+        spec = gen.gen_count_sibling_spec(rng)
+    elif r0 < 0.3:
+        # plain histograms (all bins Count): the vectorised fast paths
+        spec = gen.gen_spec(rng, rng.randint(1, 2), kinds=["Bin", "SparselyBin", "CentrallyBin", "IrregularlyBin", "Categorize", "Count"])
+    else:
+        spec = gen.gen_spec(rng, rng.randint(0, 3))
     n = rng.randint(8, 24)
     hist = []
     handles = ["h0", "h1"]
@@ -37,6 +44,8 @@ def gen_params(rng, tier):
     np_ok = any("q" in s for s in gen.walk(spec)) and not any(s["k"] == "Sum" for s in gen.walk(spec))
     for i in range(n):
         k = rng.choice(["fills", "fills", "fills", "fillsnp", "add", "iadd", "mul", "copy", "zero", "roundtrip"])
+        if 0.15 <= r0 < 0.3 and i % 3 == 0:
+            k = "fillsnp"   # plain histograms are mostly filled through the vectorised path
         a, b = rng.choice(handles), rng.choice(handles)
         if k == "fills":
             hist.append(["fills", a, [[d, w] for d, w in gen.gen_stream(rng, spec, rng.randint(1, 4))]])
@@ -49,6 +58,11 @@ def gen_params(rng, tier):
                 if d[gen.STR_COL] is None:
                     d[gen.STR_COL] = "NaN"
                 rows.append([d, rng.choice([1.0, 2.0, 0.5, 0.0])])
+            if rng.random() < (0.5 if 0.15 <= r0 < 0.3 else 0.2):
+                pat = [2.0, 0.0] * (len(rows) // 2) + [1.0] * (len(rows) % 2)   # not all one, adding up to the row count
+                rng.shuffle(pat)
+                for r_, w_ in zip(rows, pat):
+                    r_[1] = w_
             mode = "array"
             if gen.scalar_weight_safe(spec) and rng.random() < 0.4:
                 # default / scalar weight, also on an empty batch (outside the region of known finding C03-scalar-weight-count-first)
